@@ -1,5 +1,6 @@
 SPECIFICATION Spec
 CONSTANTS
+  Layouts <- LayoutsPlain
   N = 3
   Sizes = {2, 40000}
   LinkOpts <- LO_model
